@@ -17,5 +17,6 @@ CONSTANTS
   AllowIoError = FALSE
   AllowResume = FALSE
   ForgetUncreated = TRUE
+  LockPerName = FALSE
   MaxInterrupts = 3
 CHECK_DEADLOCK FALSE
